@@ -8,11 +8,8 @@ for id in $ids; do
   f=/verif/benign/$id/patch.diff; [ -f $f ] || continue
   if ! git -C /repo apply --check $f 2>/dev/null; then echo "$id NOAPPLY (base moved)"; continue; fi
   git -C /repo apply $f
-  bad=""
-  for c in C01 C02 C03 C05 C06 C07 C08 C09 C10 C11 C12 C13 C14 C15 C16 C17 C18 C19 C20; do
-    timeout 300 python3 checks/run.py $c --tier quick >/dev/null 2>&1; rc=$?
-    [ $rc -ne 0 ] && bad="$bad $c($rc)"
-  done
+  bad=$(printf '%s\n' C01 C02 C03 C05 C06 C07 C08 C09 C10 C11 C12 C13 C14 C15 C16 C17 C18 C19 C20 | \
+        xargs -P 16 -I{} sh -c 'timeout 300 python3 checks/run.py {} --tier quick >/dev/null 2>&1; rc=$?; [ $rc -ne 0 ] && echo " {}($rc)"' | sort | tr -d '\n')
   echo "$id ->${bad:- all exit 0}"; [ -n "$bad" ] && fail=1
   git -C /repo checkout -- .
 done
